@@ -6,10 +6,25 @@ from pathlib import Path
 
 ALL_TEMPLATES = ["p1_poisson_tri", "p2_poisson_tri", "mixed3_tri", "two_mesh_tri", "prism_facets", "multi_degree_tri",
                  "elasticity_tet", "interior_facet_tri", "quad_q2", "subdomains_tri", "math_tri", "two_const_tri", "hdiv_hcurl_tri",
-                 "manifold_tri", "p2_geometry_tri", "hex_q1", "tp_quad_q2", "tp_hex_q2", "expr_p2_tri", "expr_vec_tet"]
+                 "manifold_tri", "p2_geometry_tri", "hex_q1", "tp_quad_q2", "tp_hex_q2", "expr_p2_tri", "expr_vec_tet",
+                 "g_p1_q2", "g_iso_q2", "g_p2_q2", "g_dg1_q2", "g_p1vec_q2", "g_p3_gll_q4", "g_p3_equi_q4",
+                 "g_dp3_legendre_q4", "g_custom_w1", "g_custom_w2", "g_custom_w1_p2", "g_q1_quad_q2", "g_dq1_quad_q2",
+                 "g_tpq1_quad_q2"]
 
 QUICK = ["p1_poisson_tri", "p2_poisson_tri", "mixed3_tri", "two_mesh_tri", "prism_facets", "multi_degree_tri",
          "elasticity_tet", "interior_facet_tri", "tp_quad_q2", "two_const_tri", "expr_p2_tri"]
+
+# Templates that share every plausible memo key within a group: the same cell, quadrature degree and scheme, the same
+# form shape (mass + stiffness + boundary mass, so the same table shapes where the spaces have equal dimension) - they
+# differ in the element's variant / polyset / continuity / value shape, or in the weights of a custom rule only.
+# "B after A in one process" is lived for every ordered pair of a group.
+GROUPS = {
+    "tri_q2": ["g_p1_q2", "g_iso_q2", "g_p2_q2", "g_dg1_q2", "g_p1vec_q2"],
+    "tri_p3_q4": ["g_p3_gll_q4", "g_p3_equi_q4", "g_dp3_legendre_q4"],
+    "tri_custom": ["g_custom_w1", "g_custom_w2", "g_custom_w1_p2"],
+    "quad_q2": ["g_q1_quad_q2", "g_dq1_quad_q2", "g_tpq1_quad_q2"],
+}
+GROUP_TEMPLATES = [t for g in GROUPS.values() for t in g]
 
 # measured generation cost in seconds where it is far from the typical 0.02-0.1 s
 COST = {"demo:HyperElasticity": 3.2, "demo:BiharmonicRegge": 0.9, "demo:BiharmonicHHJ": 0.3, "demo:MassAction": 0.15,
@@ -41,8 +56,36 @@ FLAGS = {
 LITERALS = {"lit2": 2.0, "lit2_eps": 2.0 + 1e-10, "lit2_ulp": 2.0000000000000004, "lit3": 3.0}
 
 # request templates of the C13 algebra
-REQ_FORMS = ["mass_lit2", "mass_lit2_eps", "mass_lit2_ulp", "mass_lit3", "stokes", "quad_mass", "two_forms", "prism"]
-REQ_EXPRS = ["expr_tri", "expr_int"]
+REQ_FORMS = ["mass_lit2", "mass_lit2_eps", "mass_lit2_ulp", "mass_lit3", "stokes", "quad_mass", "two_forms", "prism",
+             "form_two_mesh"]
+REQ_EXPRS = ["expr_tri", "expr_int", "expr_two_mesh"]
+# requests whose objects live on two ufl.Mesh objects (named under every seed and several id offsets)
+REQ_TWO_MESH = ["form_two_mesh", "expr_two_mesh"]
+
+# option files a process can be given: (where, options) - "pwd" = $PWD/ffcx_options.json,
+# "xdg" = $XDG_CONFIG_HOME/ffcx/ffcx_options.json.  Only options that change the generated code.
+CONF = {
+    "none": [],
+    "pwd_f32": [("pwd", {"scalar_type": "float32"})],
+    "xdg_f32": [("xdg", {"scalar_type": "float32"})],
+    "pwd_c128": [("pwd", {"scalar_type": "complex128"})],
+    "pwd_eps": [("pwd", {"epsilon": 1e-7})],
+    "xdg_rtol": [("xdg", {"table_rtol": 1e-3})],
+    "pwd_atol": [("pwd", {"table_atol": 1e-6})],
+    "xdg_sumfact": [("xdg", {"sum_factorization": True})],
+    "xdg_f32_pwd_eps": [("xdg", {"scalar_type": "float32"}), ("pwd", {"epsilon": 1e-7})],
+}
+
+
+def effective_options(conf: str, opt: str) -> list:
+    """The non-default options a request is compiled with: user file < local file < options of the call."""
+    eff: dict = {}
+    for where in ("xdg", "pwd"):
+        for w, o in CONF[conf]:
+            if w == where:
+                eff.update(o)
+    eff.update(OPTS[opt])
+    return sorted((k, repr(v)) for k, v in eff.items())
 
 # evaluation-point variants: <base>[+<perturbation>]; a perturbation is what a lossy rendering may hide
 PTS_BASE = ["tri6", "tri600", "tri6_f32", "tri6_dyadic", "tri6_dyadic_f32"]
